@@ -111,6 +111,24 @@ impl Host<ArtifactNamedImport> for EHost {
         let k = self.host_calls;
         self.host_calls += 1;
         let interrupt = self.interrupt_mask >> (k % 64) & 1 == 1;
+        // A real host is only ever linked against imports whose signatures were checked at
+        // validation time. With AllowAll (C09) a mutated module can import h0/h1 at another type;
+        // popping this host's fixed argument list would then underflow the stack inside the
+        // *harness's* host (seen as "Stack not empty" in the thorough tier): refuse instead.
+        {
+            use concordium_wasm::{artifact::TryFromImport, types::ValueType as VT};
+            let t = f.ty();
+            let ok = if f.matches("env", "h0") {
+                t.parameters == [VT::I32] && t.result == Some(VT::I32)
+            } else if f.matches("env", "h1") {
+                t.parameters == [VT::I64, VT::I32] && t.result.is_none()
+            } else {
+                true
+            };
+            if !ok {
+                anyhow::bail!("harness: import declared at an unsupported type")
+            }
+        }
         if f.matches("env", "h0") {
             let x = unsafe { stack.pop_u32() } as i32;
             self.log = vmon_core::mix(&[self.log, 0, x as u32 as u64]);
@@ -226,7 +244,22 @@ pub const REF_FUEL: u64 = 200_000;
 
 pub fn run_ref(m: &Module, fidx: u32, args: &[V], cost: Cost) -> RefRun { run_ref_fuel(m, fidx, args, cost, REF_FUEL) }
 
+/// The reference interpreter recurses per Wasm call and per nested block (up to 900 calls deep).
+/// Under ASan its frames are several times larger and exhausted the 8 MiB main stack (a harness
+/// fault reported as an ASan stack-overflow in the thorough tier), so it runs on its own thread
+/// with a generous stack; the code under test keeps the ordinary stack.
 pub fn run_ref_fuel(m: &Module, fidx: u32, args: &[V], cost: Cost, fuel: u64) -> RefRun {
+    std::thread::scope(|s| {
+        std::thread::Builder::new()
+            .stack_size(256 << 20)
+            .spawn_scoped(s, || run_ref_here(m, fidx, args, cost, fuel))
+            .expect("spawn reference thread")
+            .join()
+            .unwrap_or_else(|_| RefRun { out: Out::Skip("refpanic: reference thread died".into()), energy: 0, grow: vec![], steps: 0, ops: [0; 256], br: [0; 12], host_calls: 0, log: 0 })
+    })
+}
+
+fn run_ref_here(m: &Module, fidx: u32, args: &[V], cost: Cost, fuel: u64) -> RefRun {
     let r = vmon_core::catch(|| {
         let mut mach = Machine::new(m, RHost::default(), fuel, cost);
         let r = mach.invoke(fidx, args);
